@@ -334,7 +334,7 @@ def run_case (side, msgs, kind, arg, src="/repo", trace=None, end=None):
         if site == "outside-pox": raise
         v = bad("hang" if isinstance(e, CaseTimeout) else "raises", "%s:%s" % (site, type(e).__name__),
                 "%s: %s escaped the read path (%s) with %d of %d bytes received"
-                % (type(e).__name__, e, site, queued - sum(len(c) for c in end.sock.rx), len(stream)))
+                % (type(e).__name__, str(e)[:160], site, queued - sum(len(c) for c in end.sock.rx), len(stream)))
         return v, profile, nreads, states
       fed += got; nreads += 1
       if trace is not None: trace.append("read #%d: +%d bytes (total %d), delivered so far %d" % (nreads, got, fed, len(log)))
@@ -406,6 +406,13 @@ def critical (lens):
 
 def cases_for (lens, threecuts):
   L = sum(lens)
+  if len(lens) > 3:
+    # bulk streams (many messages arriving in few reads): unsegmented, every fixed read size, every 1-cut
+    yield ("cuts", ())
+    for k in CHUNKS + [4096, 8191, 8192, 8193]:
+      if k < L: yield ("chunk", k)
+    for p in range(1, L): yield ("cuts", (p,))
+    return
   yield ("cuts", ())
   for p in range(1, L): yield ("cuts", (p,))
   for k in CHUNKS:
@@ -498,6 +505,11 @@ def run (cfg):
     for k in range(1, maxlen + 1):
       for seq in itertools.product(names, repeat=k):
         items.append((side, seq, threecuts, cfg.pox_src))
+    # bulk streams: one read (or few) spanning many complete messages
+    small = names[0]; second = names[1]
+    for n in (33, 40, 100, 300) if cfg.quick else (17, 33, 40, 64, 65, 100, 300, 1000):
+      items.append((side, (small,) * n, threecuts, cfg.pox_src))
+      items.append((side, (small, second) * (n // 2), threecuts, cfg.pox_src))
   # heavy streams first so the pool drains evenly (order only; every item is run)
   items.sort(key=lambda it: -sum(len(m) for m in build(it[0], it[1])))
   for r in pmap(_worker, items, cfg.workers, seed=cfg.seed):
